@@ -269,6 +269,68 @@ func init() {
 		return 0
 	}
 
+	// Length under concurrency: one writer moves a token round a ring of keys (store the next, delete the previous: 1 or 2 live
+	// keys after every prefix of its operations), readers call Length all the while
+	subcmds["vmap-len"] = func(args []string) int {
+		fs := newFlags("vmap-len")
+		out := fs.String("out", "", "events ndjson")
+		runs := fs.Int("runs", 4, "runs")
+		calls := fs.Int("calls", 100000, "Length calls per reader")
+		fs.Parse(args)
+		w := newNDWriter(*out)
+		defer w.Close()
+		for run := 0; run < *runs; run++ {
+			ring := 4 + run%3
+			keys := make([]string, ring)
+			for i := range keys {
+				keys[i] = fmt.Sprintf("t%d", i)
+			}
+			m := &ds.ValueMap{}
+			m.Store(keys[0], ds.NewIntVal(1))
+			var stop atomic.Bool
+			var wg sync.WaitGroup
+			wg.Add(1)
+			go func() {
+				defer wg.Done()
+				for i := 0; !stop.Load(); i++ {
+					m.Store(keys[(i+1)%ring], ds.NewIntVal(1))
+					m.Delete(keys[i%ring])
+				}
+			}()
+			readers := 2
+			seen := make([]map[int]bool, readers)
+			var rg sync.WaitGroup
+			for g := 0; g < readers; g++ {
+				seen[g] = map[int]bool{}
+				rg.Add(1)
+				go func(g int) {
+					defer rg.Done()
+					for c := 0; c < *calls; c++ {
+						seen[g][m.Length()] = true
+					}
+				}(g)
+			}
+			rg.Wait()
+			stop.Store(true)
+			wg.Wait()
+			all := map[int]bool{}
+			for _, sg := range seen {
+				for v := range sg {
+					all[v] = true
+				}
+			}
+			vals := []int{}
+			for v := range all {
+				vals = append(vals, v)
+			}
+			sort.Ints(vals)
+			// quiescent: exactly the token's key is live
+			w.Write(map[string]any{"ev": "c12len", "ring": ring, "lo": 1, "hi": 2, "seen": vals, "calls": readers * *calls, "final": m.Length(), "finalExpected": 1})
+		}
+		emitSummary(map[string]any{"runs": *runs})
+		return 0
+	}
+
 	// concurrent histories: invocation/response tickets from a global atomic counter taken inside the call window
 	// amplified scenarios: many keys are driven into the same internal shape (stored / promoted / deleted after promotion /
 	// expunged), then one goroutine applies an operation to each of them in turn while another one performs a single
